@@ -615,11 +615,15 @@ impl ZiPatch {
                                     // reverse reading crc32
                                     file.seek(SeekFrom::Current(-4))?;
 
-                                    let mut data: Vec<u8> =
-                                        Vec::with_capacity(fop.file_size as usize);
+                                    // file_size comes from the patch: do not reserve it up front, and
+                                    // treat a block that cannot be read as a broken patch
+                                    let mut data: Vec<u8> = Vec::new();
 
-                                    while data.len() < fop.file_size as usize {
-                                        data.append(&mut read_data_block_patch(&mut file).unwrap());
+                                    while (data.len() as u64) < fop.file_size {
+                                        data.append(
+                                            &mut read_data_block_patch(&mut file)
+                                                .ok_or(PatchError::ParseError)?,
+                                        );
                                     }
 
                                     // re-apply crc32
